@@ -214,7 +214,8 @@ def run_family(prop, tier, ev, jobs, *, groups, validate_scripts=0, roles=None, 
             role = label
             kf = C.known_finding_for(prop, role)
             reproduced = None
-            for job, v in items[:4]:
+            items = sorted(items, key=lambda jv: 0 if (jv[0].get("opts") or {}).get("tie") else 1)
+            for job, v in items[:8]:
                 script, opts = job["script"], job.get("opts") or {}
                 text = NV.render(script, v["vals"], opts)
                 d = C.replay_dir(prop, script_hash(script, opts) + "-" + label.split(":")[1][:40])
